@@ -401,6 +401,23 @@ func (t *target) serveTunnel(c net.Conn, k int) {
 	case "tundown":
 		_ = t.ln.Close()
 		return
+	case "tunrejbody", "tunrejchunk":
+		// the CONNECT is rejected with complete headers and a body that is announced but never finished; the connection
+		// stays open: the rejection is all the gun needs, so it must give the connection up (observed like `stall`)
+		if beh == "tunrejbody" {
+			_, _ = c.Write([]byte("HTTP/1.1 403 Forbidden\r\nContent-Type: text/html\r\nContent-Length: 100000\r\n\r\n<html>no"))
+		} else {
+			_, _ = c.Write([]byte("HTTP/1.1 502 Bad Gateway\r\nTransfer-Encoding: chunked\r\n\r\n5\r\nhello\r\n"))
+		}
+		begin := time.Now()
+		_ = c.SetReadDeadline(begin.Add(12 * time.Second))
+		_, _ = br.ReadByte()
+		if time.Since(begin) > time.Second+stallSlack {
+			t.mu.Lock()
+			t.late++
+			t.mu.Unlock()
+		}
+		return
 	}
 	_, _ = c.Write([]byte("HTTP/1.1 200 Connection established\r\n\r\n"))
 	t.serveReader(c, br)
@@ -559,6 +576,9 @@ func gunConf(m map[string]any, opts string, answPath string) map[string]any {
 // splitOpts: optional p<0|1> (the ammo are POST requests with a body) and r<0|1> (gun option `redirect`) in front of
 // the d?t?g?a<filter> options
 func splitOpts(opts string) (post, redirect bool, rest string) {
+	if len(opts) > 2 && opts[0] == 'o' { // o<0|1>: see phoutOpt
+		opts = opts[2:]
+	}
 	if len(opts) > 2 && opts[0] == 'p' {
 		post, opts = opts[1] == '1', opts[2:]
 	}
@@ -567,6 +587,10 @@ func splitOpts(opts string) (post, redirect bool, rest string) {
 	}
 	return post, redirect, opts
 }
+
+// phoutOpt: o1 in front of everything else = the samples go through the real phout aggregator (which hands every
+// sample back to the pool after writing it, so later samples are recycled objects) and are read back from its file
+func phoutOpt(opts string) bool { return len(opts) > 2 && opts[0] == 'o' && opts[1] == '1' }
 
 func hclString(s string) string {
 	s = strings.ReplaceAll(s, "\\", "\\\\")
@@ -725,6 +749,7 @@ func runEngineOnce(t *tokens) string {
 	mode := t.next()
 	refused := mode == "1"
 	opts := t.next()
+	phout := phoutOpt(opts)
 	post, redirect, opts := splitOpts(opts)
 	iters := t.num()
 	var steps []step
@@ -839,6 +864,11 @@ func runEngineOnce(t *tokens) string {
 		"startup":          []any{map[string]any{"type": "once", "times": inst}},
 	}
 	defer os.Remove(answPath)
+	phoutPath := fmt.Sprintf("/phout-%d.log", caseNo)
+	if phout {
+		pool["result"] = map[string]any{"type": "phout", "destination": phoutPath}
+		defer fs.Remove(phoutPath)
+	}
 	conf := cli.DefaultConfig()
 	if err := config.DecodeAndValidate(map[string]any{"pools": []any{pool}}, conf); err != nil {
 		return "run=conferr:" + vh.HexS(err.Error())
@@ -866,7 +896,9 @@ func runEngineOnce(t *tokens) string {
 		defer ln.Close()
 	}
 	ag := &recAggr{}
-	conf.Engine.Pools[0].Aggregator = ag
+	if !phout {
+		conf.Engine.Pools[0].Aggregator = ag
+	}
 	logger := zap.NewNop()
 	if len(opts) > 5 && opts[5] == '1' {
 		// debug-level logger into the void: Bind sees a logger that accepts Debug and switches verboseLogging on
@@ -906,6 +938,19 @@ func runEngineOnce(t *tokens) string {
 		run = "panic"
 	case runErr != nil:
 		run = "err"
+	}
+	if phout && !hang {
+		// what the phout file says: last two columns = net code (0 = no error), proto code
+		data, _ := afero.ReadFile(fs, phoutPath)
+		for _, ln := range strings.Split(strings.TrimSpace(string(data)), "\n") {
+			f := strings.Split(ln, "\t")
+			if len(f) < 3 {
+				continue
+			}
+			net, _ := strconv.Atoi(f[len(f)-2])
+			proto, _ := strconv.Atoi(f[len(f)-1])
+			ag.recs = append(ag.recs, sampleRec{proto, net != 0})
+		}
 	}
 	ag.mu.Lock()
 	defer ag.mu.Unlock()
